@@ -58,7 +58,18 @@ func runSelftest(args []string) int {
 				f.OutWriteErrAt = r.intn(3000)
 			}
 			mode := []int{simmap.Asc, simmap.Desc, simmap.PermStable, simmap.PermVarying, simmap.PermGlobal}[r.intn(5)]
-			cases = append(cases, makeCase(fmt.Sprintf("st-%d-%d", s, i), in, delivery{viaFile: r.chance(1, 2), outFile: r.chance(1, 2)}, f, mode, r.u64(), 2))
+			if r.chance(1, 5) {
+				in = crlfVariant(r, in)
+			}
+			conc := i%5 == 4 && !contains(in.Flags, "-x")
+			if conc {
+				in.Rebuild = true // library-style double build ...
+			}
+			cs := makeCase(fmt.Sprintf("st-%d-%d", s, i), in, delivery{viaFile: r.chance(1, 2), outFile: r.chance(1, 2)}, f, mode, r.u64(), 2)
+			if conc {
+				cs.RebuildVariant = 3 // ... with two builds at the same time under the task scheduler
+			}
+			cases = append(cases, cs)
 		}
 		var ref []string
 		for ci, cf := range confs {
@@ -86,7 +97,7 @@ func runSelftest(args []string) int {
 					json.Unmarshal(line, &res)
 					var sig string
 					for k := range res.Runs {
-						sig += runSignature(&res.Runs[k]) + fmt.Sprintf("|%v|%d|steps=%d;", res.Runs[k].Fired, res.Runs[k].Map.Ranges2, res.Runs[k].Steps)
+						sig += runSignature(&res.Runs[k]) + fmt.Sprintf("|%v|%d|steps=%d|sched=%v;", res.Runs[k].Fired, res.Runs[k].Map.Ranges2, res.Runs[k].Steps, res.Runs[k].Sched)
 					}
 					sigs[i] = sig
 				}(i)
@@ -109,7 +120,7 @@ func runSelftest(args []string) int {
 		pr := newRng(seed, hashLabel("selftest-parser"))
 		var specs []*genParser
 		for i := 0; i < 80; i++ {
-			specs = append(specs, drawSpec(pr, fmt.Sprintf("p%03d", i), specBias{nullableLoops: 15, leftRec: 20, states: 70, preds: 60, actions: 85, throws: 25, optimized: 35, display: 20, unicode: 40, stateBias: true, lrDirect: true}))
+			specs = append(specs, drawSpec(pr, fmt.Sprintf("p%03d", i), specBias{nullableLoops: 15, leftRec: 20, states: 70, preds: 60, actions: 85, throws: 25, optimized: 35, display: 20, unicode: 40, stateBias: true, lrDirect: true, topLoop: 8}))
 		}
 		pw := buildParserWorld(sc, pigeon, specs, false)
 		var reqs []*parsersim.Request
